@@ -595,6 +595,103 @@ func runCaseA(c *core.Ctx, cs *caseA, allFacets []FacetSpec, layout int, forms [
 		}
 	}
 	evals := 0
+	// one search + comparison of every requested facet with the model's expectation
+	checkReq := func(req *bleve.SearchRequest, form int, v Variant, facets []FacetSpec, names []string) (*Failure, error) {
+		res, err := idx.Search(req)
+		if err != nil {
+			return nil, fmt.Errorf("search: %v", err)
+		}
+		evals++
+		if int(res.Total) != nMatched {
+			return nil, fmt.Errorf("query form %d matched %d documents, expected %d (docs %s)", form, res.Total, nMatched, core.Canon(cs.Docs))
+		}
+		for i, fs := range facets {
+			want := cs.Expect[fs.Name]
+			name := fs.Name
+			if names != nil {
+				name = names[i]
+			}
+			real, ok := res.Facets[name]
+			if !ok {
+				return &Failure{Engine: "A", Layout: layout, Docs: cs.Docs, Form: form, Variant: v, Facet: fs, Expect: &want, Clause: "absent"}, nil
+			}
+			got, note := canon(encA, fs, real)
+			cl := note
+			if cl == "" {
+				cl = want.diff(got)
+			} else {
+				cl = "shape"
+			}
+			if cl != "" {
+				return &Failure{Engine: "A", Layout: layout, Docs: cs.Docs, Form: form, Variant: v, Facet: fs, Expect: &want, Got: got, Clause: cl, Note: note}, nil
+			}
+		}
+		return nil, nil
+	}
+	// (1) the first request on the fresh index asks for the facets of ONE field only
+	// (rotating), the following ones for several fields: per-segment caches filled
+	// for one field must not pass for the others (fields without doc values)
+	{
+		kind := []string{"terms", "numeric", "date"}[(rot+layout)%3]
+		var one []FacetSpec
+		for _, fs := range lightFacets {
+			if fs.Kind == kind {
+				one = append(one, fs)
+			}
+		}
+		req, err := newRequest(encA, matchQuery(forms[0], cs.Docs), variants[0], one, rot%2 == 0)
+		if err != nil {
+			return evals, nil, err
+		}
+		if f, err := checkReq(req, forms[0], variants[0], one, nil); f != nil || err != nil {
+			if f != nil {
+				f.Note += " (first request on the index: facets of one field only)"
+			}
+			return evals, f, err
+		}
+	}
+	// (2) one FacetRequest object used for two searches with different term patterns
+	// (regexp "[13]$" = filter 3, then regexp "^a" = the terms of filter 2), once
+	// re-validated in between and once not
+	{
+		var f3, f2 *FacetSpec
+		for i := range lightFacets {
+			fs := &lightFacets[i]
+			if fs.Kind == "terms" && fs.Size == 3 && fs.Filter == filtersA[2] {
+				f3 = fs
+			}
+			if fs.Kind == "terms" && fs.Size == 3 && fs.Filter == filtersA[1] {
+				f2 = fs
+			}
+		}
+		if f3 != nil && f2 != nil {
+			for _, revalidate := range []bool{true, false} {
+				v := variants[0]
+				req := bleve.NewSearchRequestOptions(matchQuery(forms[0], cs.Docs), v.Size, v.From, false)
+				fr := f3.request(encA, 0)
+				req.AddFacet("reused", fr)
+				if err := req.Validate(); err != nil {
+					return evals, nil, err
+				}
+				if f, err := checkReq(req, forms[0], v, []FacetSpec{*f3}, []string{"reused"}); f != nil || err != nil {
+					return evals, f, err
+				}
+				fr.SetRegexFilter("^a")
+				if revalidate {
+					if err := req.Validate(); err != nil {
+						return evals, nil, err
+					}
+				}
+				if f, err := checkReq(req, forms[0], v, []FacetSpec{*f2}, []string{"reused"}); f != nil || err != nil {
+					if f != nil {
+						f.Note += fmt.Sprintf(" (a FacetRequest used before with the term pattern \"[13]$\", now SetRegexFilter(\"^a\"), re-validated=%v)", revalidate)
+						f.Clause = "reused-request:" + f.Clause
+					}
+					return evals, f, err
+				}
+			}
+		}
+	}
 	for fi, form := range forms {
 		for vi := 0; vi < nvar; vi++ {
 			if fi > 0 && c.Quick() && (vi+rot)%3 != 0 {
